@@ -46,9 +46,16 @@ void harness(void) {
   for (int k = 0; k < NOPD; k++) {
     if (k) line[p++] = ',';
     for (int w = 0; w < OPW; w++) {
+#ifdef OPS_CONCRETE
+      /* operand-count query: the operands are the fixed letters a, b, c, ...
+       * (everything is concrete, the query is about how many operands the
+       * splitter is prepared to store) */
+      line[p++] = (char)('a' + k);
+#else
       unsigned long b = IN(k * OPW + w);
       ASSUME(b > 0x20 && b <= 0x7e && b != ',' && !(b >= 'A' && b <= 'Z'));
       line[p++] = (char)b;
+#endif
     }
   }
   line[p] = 0;
